@@ -1,5 +1,5 @@
 //! C23: atomic publication under failures and crashes.
-//!  (a) closure-level injection through hook H7: every combination of {ok, Err, panic-before, panic-after}
+//!  (a) closure-level injection through hook H7: every combination of {ok, Err, Err-with-the-output-path-re-created-by-another-process, panic-before, panic-after}
 //!      on the (at most three) renames of the publish/rollback sequence, from every initial state — exhaustive;
 //!  (b) syscall-level injection with strace into a child process running the UNHOOKED
 //!      generate_all_circuit_binaries: every file-system call of the publishing thread (by syscall name and
@@ -50,6 +50,10 @@ enum Init {
 enum Beh {
     Ok,
     Fail,
+    /// the rename fails because, just before it, another process re-created the OUTPUT path as a non-empty
+    /// directory (a consumer re-creating `bins/` with a lock file): the failure is a real ENOTEMPTY situation
+    /// that persists, so a later rollback rename onto the output path fails for real as well
+    FailOccupied,
     PanicBefore,
     PanicAfter,
 }
@@ -60,6 +64,8 @@ enum At {
     File,
     Old,
     New,
+    /// the directory the simulated foreign process created (neither artifact set)
+    Foreign,
     Mixed(String),
 }
 
@@ -73,6 +79,7 @@ fn classify(path: &Path, old: &FileSet, new: &FileSet) -> At {
     match read_set(path) {
         Some(s) if &s == old => At::Old,
         Some(s) if &s == new => At::New,
+        Some(s) if s.len() == 1 && s.get("consumer.lock").map(|v| v.as_slice()) == Some(b"foreign".as_slice()) => At::Foreign,
         Some(s) => At::Mixed(format!("{:?}", s.keys().collect::<Vec<_>>())),
         None => At::Absent,
     }
@@ -81,7 +88,7 @@ fn classify(path: &Path, old: &FileSet, new: &FileSet) -> At {
 fn closure_space(ctx: &Ctx, rep: &Report) {
     let old: FileSet = [("common.bin".to_string(), b"OLD-common".to_vec()), ("verifier.bin".to_string(), b"OLD-verifier".to_vec()), ("stale_only_in_old.bin".to_string(), b"x".to_vec())].into_iter().collect();
     let new: FileSet = [("common.bin".to_string(), b"NEW-common".to_vec()), ("verifier.bin".to_string(), b"NEW-verifier".to_vec()), ("config.json".to_string(), b"{}".to_vec())].into_iter().collect();
-    let behs = [Beh::Ok, Beh::Fail, Beh::PanicBefore, Beh::PanicAfter];
+    let behs = [Beh::Ok, Beh::Fail, Beh::FailOccupied, Beh::PanicBefore, Beh::PanicAfter];
     let mut cases: Vec<(Init, [Beh; 3])> = vec![];
     for init in [Init::Absent, Init::File, Init::OldDir] {
         for a in behs {
@@ -92,7 +99,7 @@ fn closure_space(ctx: &Ctx, rep: &Report) {
             }
         }
     }
-    rep.set_extra("closure_space", json!({"initial_states": 3, "behaviours_per_rename": 4, "renames": 3, "cases": cases.len(), "exhaustive": true}));
+    rep.set_extra("closure_space", json!({"initial_states": 3, "behaviours_per_rename": 5, "renames": 3, "cases": cases.len(), "exhaustive": true}));
     let scratch = Scratch::new("c23a");
     cases.par_iter().enumerate().for_each(|(ci, (init, plan))| {
         let _ = ctx;
@@ -118,6 +125,7 @@ fn closure_space(ctx: &Ctx, rep: &Report) {
         let step = Cell::new(0usize);
         let crashed = Cell::new(false);
         let renames_done: Cell<usize> = Cell::new(0);
+        let occupied = Cell::new(false);
         let res = catch_unwind(AssertUnwindSafe(|| {
             wormhole_circuit_builder::verif_commit_staging_dir_impl(&staging, &output, |src, dst| {
                 let k = step.get();
@@ -129,6 +137,14 @@ fn closure_space(ctx: &Ctx, rep: &Report) {
                         std::fs::rename(src, dst)
                     }
                     Beh::Fail => Err(std::io::Error::new(std::io::ErrorKind::Other, "injected rename failure")),
+                    Beh::FailOccupied => {
+                        if dst == output.as_path() && !dst.exists() {
+                            std::fs::create_dir_all(dst).unwrap();
+                            std::fs::write(dst.join("consumer.lock"), b"foreign").unwrap();
+                            occupied.set(true);
+                        }
+                        Err(std::io::Error::new(std::io::ErrorKind::Other, "injected rename failure (destination re-created by another process: directory not empty)"))
+                    }
                     Beh::PanicBefore => {
                         crashed.set(true);
                         panic!("injected crash before rename {k}");
@@ -149,7 +165,7 @@ fn closure_space(ctx: &Ctx, rep: &Report) {
         let at_out = classify(&output, &old, &new);
         let at_old = classify(&old_path, &old, &new);
         let at_stage = classify(&staging, &old, &new);
-        let case = json!({"initial": format!("{init:?}"), "plan": format!("{plan:?}"), "renames_attempted": reached, "output": format!("{at_out:?}"), "old_path": format!("{at_old:?}"), "staging": format!("{at_stage:?}"),
+        let case = json!({"initial": format!("{init:?}"), "plan": format!("{plan:?}"), "renames_attempted": reached, "output_reoccupied_by_foreign_process": occupied.get(), "output": format!("{at_out:?}"), "old_path": format!("{at_old:?}"), "staging": format!("{at_stage:?}"),
             "result": match &res { Ok(Ok(())) => "Ok".to_string(), Ok(Err(e)) => format!("Err({})", e.to_string().chars().take(160).collect::<String>()), Err(_) => "crash".to_string() }});
         let initial_at = match init { Init::Absent => At::Absent, Init::File => At::File, Init::OldDir => At::Old };
         // never a mix, anywhere the artifacts can be
@@ -175,8 +191,10 @@ fn closure_space(ctx: &Ctx, rep: &Report) {
                     rep.violation("publish / failure reported but new set live", "publication returned Err although the new artifact set is live at the output path", case.clone());
                 }
                 let untouched = at_out == initial_at;
-                let documented_double_failure = *init == Init::OldDir && at_out == At::Absent && both_survive;
-                if !untouched && !documented_double_failure {
+                let documented_double_failure = *init == Init::OldDir && (at_out == At::Absent || at_out == At::Foreign) && both_survive;
+                // the output path was created by the foreign process, not by the publisher, and there was no previous set to protect
+                let foreign_over_nothing = *init == Init::Absent && at_out == At::Foreign && occupied.get();
+                if !untouched && !documented_double_failure && !foreign_over_nothing {
                     rep.violation("publish / failed publication changed the output", &format!("after a reported failure the output path holds {at_out:?} (initially {initial_at:?}) and the copies are at old_path={at_old:?}, staging={at_stage:?}"), case.clone());
                 }
                 // a surviving staging directory is only acceptable when it is the complete new set (documented survivor)
@@ -196,7 +214,8 @@ fn closure_space(ctx: &Ctx, rep: &Report) {
                 match (&initial_at, &at_out) {
                     (_, At::New) => {}
                     (a, b) if a == b => {}
-                    (At::Old, At::Absent) => {
+                    (At::Absent, At::Foreign) if occupied.get() => {}
+                    (At::Old, At::Absent) | (At::Old, At::Foreign) => {
                         if !both_survive {
                             rep.violation("publish / crash loses an artifact set", &format!("after a crash the previous set is gone from the output path and the copies are old_path={at_old:?}, staging={at_stage:?}"), case.clone());
                         }
@@ -452,7 +471,7 @@ fn syscall_space(ctx: &Ctx, rep: &Report) {
 }
 
 pub fn run_c23(ctx: &Ctx) -> i32 {
-    let rule = "fault point = (initial state in {absent, file, previous directory}) x (behaviour of each rename of the publish/rollback sequence in {ok, error, crash before, crash after}) through the injectable publish routine (hook H7) — the whole space is enumerated; \
+    let rule = "fault point = (initial state in {absent, file, previous directory}) x (behaviour of each rename of the publish/rollback sequence in {ok, error, error because another process re-created the output path as a non-empty directory, crash before, crash after}) through the injectable publish routine (hook H7) — the whole space is enumerated; \
         plus (initial state) x (every file-system call — mkdir, openat, write to an artifact, unlink, rename, rmdir — that the publishing thread of the real generator process makes in a fault-free reference run, identified by (syscall, ordinal)) x (returns EIO/ENOSPC/EACCES, or the process is SIGKILLed at its entry) under strace, each run's own trace confirming which call was hit; after every run the directory tree is inspected and every file compared byte-wise with the previous / new set; \
         non-trivial = every executed fault point; distinct by (initial state, fault plan)";
     let rep = Report::new("C23", "fault_enumeration", rule);
